@@ -12,9 +12,10 @@ Z3 = os.environ.get("PYVC_Z3", "z3-new")
 CVC5 = os.environ.get("PYVC_CVC5", "/usr/bin/cvc5")
 
 
-def to_smt2(ob, want_model=False):
+def to_smt2(ob, want_model=False, with_axioms=True):
     s = z3.Solver()
-    for c in ob.axioms:
+    ax = ob.axioms if with_axioms is True else (getattr(ob, "req_axioms", []) if with_axioms == "req" else [])
+    for c in ax:
         s.add(c)
     for c in ob.pc:
         s.add(c)
@@ -45,8 +46,15 @@ def run_solver(cmd, txt, timeout):
 
 
 def discharge_one(args):
-    idx, txt, timeout, strings = args
+    idx, txt, timeout, strings, stages = args
     log = []
+    # earlier stages use fewer hypotheses (no / only contract-requested lemma instances): sound for a proof
+    for name, t_ in stages:
+        t1 = timeout
+        res, out, dt = run_solver([Z3, "-in", "-smt2", "-T:%d" % t1], t_, t1)
+        log.append(("z3-" + name, res, round(dt * 1000)))
+        if res == "unsat":
+            return idx, res, "z3", log, None
     res, out, dt = run_solver([Z3, "-in", "-smt2", "-T:%d" % timeout], txt, timeout)
     log.append(("z3", res, round(dt * 1000)))
     model = out if res == "sat" else None
@@ -72,7 +80,13 @@ def discharge(obligations, timeout=10, jobs=None, want_models=True):
             tasks.append(None)
             continue
         txt = to_smt2(ob, want_model=want_models)
-        tasks.append((i, txt, timeout, uses_strings(txt)))
+        stages = []
+        if len(ob.axioms) > 4:
+            stages.append(("noaxioms", to_smt2(ob, with_axioms=False)))
+            nreq = len(getattr(ob, "req_axioms", []))
+            if 0 < nreq < len(ob.axioms):
+                stages.append(("requested-lemmas", to_smt2(ob, with_axioms="req")))
+        tasks.append((i, txt, timeout, uses_strings(txt), stages))
     results = [None] * len(obligations)
     todo = [t for t in tasks if t is not None]
     for i, t in enumerate(tasks):
